@@ -225,7 +225,7 @@ class Interp:
         r = self.solver.check() if c is None else self.solver.check(c)
         if r == z3.unknown:
             self.unknown_feasibility += 1
-        if self.deadline is not None and time.time() > self.deadline:
+        if self.deadline is not None and time.process_time() > self.deadline:
             raise Unsupported('time budget of the target exceeded (%d solver feasibility checks were inconclusive)' % self.unknown_feasibility)
         return r != z3.unsat
 
